@@ -20,6 +20,8 @@ inductive Node
   | comment
   | pi
   | text (s : String)
+  /-- an unexpanded entity reference (`resolve_entities=False`): an lxml node whose tag is a function -/
+  | entity
 deriving Repr, BEq
 
 namespace Node
